@@ -326,7 +326,7 @@ class MultiByteValue(Value):
         if "," not in value:
             raise ValueTypeError("multi-byte declarations must have a comma in them")
         values = value.split(",")
-        self.hex_array = [NumericValue(x).hex(size=2) for x in values if x != ""]
+        self.hex_array = [NumericValue(x).hex_fixed(2) for x in values if x != ""]
 
     def hex(self, size=0):
         return "".join(self.hex_array)
@@ -349,7 +349,7 @@ class MultiWordValue(Value):
         if "," not in value:
             raise ValueTypeError("multi-word declarations must have a comma in them")
         values = value.split(",")
-        self.hex_array = [NumericValue(x).hex(size=4) for x in values if x != ""]
+        self.hex_array = [NumericValue(x).hex_fixed(4) for x in values if x != ""]
 
     def hex(self, size=0):
         return "".join(self.hex_array)
@@ -501,6 +501,19 @@ class NumericValue(Value):
             size += 1 if size % 2 == 1 else 0
         format_specifier = "{{:0>{}X}}".format(size)
         return format_specifier.format(self.get_negative())
+
+    def hex_fixed(self, size):
+        """
+        Returns the value as exactly size hex digits, in two's complement if it is
+        negative. Raises a ValueTypeError if the value does not fit.
+
+        :param size: the number of hex digits to produce
+        :return: the hex representation of the value
+        """
+        number = -self.int if self.negative else self.int
+        if number < -(1 << (4 * size - 1)) or number >= (1 << (4 * size)):
+            raise ValueTypeError("[{}] does not fit in {} byte(s)".format(number, int(size / 2)))
+        return "{{:0>{}X}}".format(size).format(number & ((1 << (4 * size)) - 1))
 
     def hex_len(self):
         if self.size_hint is not None:
